@@ -260,6 +260,9 @@ fn not_args() -> Vec<G> {
         G::And(vec![call("q", vec![v("$Y")]), G::Unify(v("$X"), v("$Y"))]),
         G::Fail,
         G::Not(Box::new(call("q", vec![v("$X")]))),
+        // a test that only makes sense after the goal to its left has bound its operand
+        G::And(vec![call("q", vec![v("$Y")]), G::Cmp(Rel::Gt, v("$Y"), a())]),
+        G::And(vec![call("r", vec![v("$Y")]), G::Cmp(Rel::Eq, v("$Y"), v("$X"))]),
     ]
 }
 
@@ -267,6 +270,11 @@ fn not_args() -> Vec<G> {
 pub fn not(level: u8, f: &mut dyn FnMut(Case)) {
     let n = if level == 0 { 2 } else { 3 };
     let mut leaves = vec![call("q", vec![v("$X")]), call("r", vec![v("$X")]), G::Unify(v("$X"), a()), G::Unify(v("$X"), c())];
+    if level >= 1 {
+        // a callee with variables of its own, and a body-only variable of the caller
+        leaves.push(call("h", vec![v("$U")]));
+        leaves.push(G::Unify(v("$X"), v("$V")));
+    }
     let plain = leaves.len();
     for g in not_args() {
         leaves.push(G::Not(Box::new(g)));
@@ -276,6 +284,7 @@ pub fn not(level: u8, f: &mut dyn FnMut(Case)) {
     let queries = vec![cplx("p", vec![v("$Z")]), cplx("p", vec![a()]), cplx("p", vec![c()])];
     for bdy in &bodies {
         let mut p = edb();
+        p.push(rule("h", vec![v("$M")], G::And(vec![call("r", vec![v("$N")]), call("q", vec![v("$M")])])));
         p.push(rule("p", vec![v("$X")], bdy.clone()));
         f(Case { family: "not", prog: p.clone(), queries: queries.clone() });
         if bdy.leaves() <= 2 {
@@ -302,6 +311,9 @@ pub fn output(level: u8, f: &mut dyn FnMut(Case)) {
         G::PrintList(vec![list(vec![a(), v("$X")])]),
         G::Fail,
         G::Unify(v("$X"), a()),
+        // a call to a predicate without clauses, a format with more markers than values
+        call("nosuch", vec![v("$X")]),
+        G::Print(vec![atom("[%s:%s]"), v("$X")]),
     ];
     let bodies: Vec<G> = bodies_upto(&leaves, n).into_iter().filter(|b| b.has_output()).collect();
     let queries = vec![cplx("p", vec![v("$Z")]), cplx("p", vec![a()])];
@@ -326,6 +338,9 @@ pub fn output(level: u8, f: &mut dyn FnMut(Case)) {
         vec![v("$X")],
         vec![atom("f: %s"), cplx("f", vec![a(), T::Int(1), T::Float(2.5)])],
         vec![T::Int(7), atom(" "), T::Float(1.5)],
+        vec![atom("(%s|%s|%s)"), v("$X"), v("$Y")],
+        vec![atom("%s%s"), v("$X")],
+        vec![atom("%s and %s.")],
     ];
     for fm in fmts {
         let mut p = edb();
